@@ -74,6 +74,17 @@ impl Context {
     /// A class may not be its own ancestor: class lookup follows parents without end otherwise.
     fn no_cyclic_inheritance(&self) -> TypeResult<()> {
         for class in &self.classes {
+            // A type parameter is no parent: what the class inherits would depend on its own use.
+            let is_param = |parent: &String| {
+                let mut params = class.name.generics.iter().flat_map(|g| g.names.iter());
+                params.any(|param| &param.variant.name == parent)
+            };
+            if let Some(parent) = class.parents.iter().find(|p| is_param(&p.name.variant.name)) {
+                let name = &parent.name.variant.name;
+                let msg = format!("{} inherits from its own type parameter {name}", class.name.name);
+                return Err(vec![TypeErr::new(class.pos, &msg)]);
+            }
+
             let (mut todo, mut seen) = (vec![&class.name.name], HashSet::new());
             while let Some(name) = todo.pop() {
                 let parents = self
